@@ -1,1 +1,169 @@
-import CnlModel.Elastic
+import CnlProofs.Elastic
+/-!
+# C05 — elastic_integer arithmetic never overflows and stays within its declared digits
+
+Theorems about the executable model `CnlModel/Elastic.lean` (validated against the real code by
+the `C05` correspondence table).  They hold for **all** digit counts, all signedness mixes, all
+narrowest widths and all in-range operand values.  "Whenever the result type exists" is the
+hypothesis `∀ m, f … ≠ .ill m`: the model returns `.ill` exactly when a storage selection
+(`set_digits_t`) fails, i.e. when the real program does not compile.  (`binOp_exact_of_types`
+states the same with the storage selections as explicit hypotheses.)
+
+* `binOp_exact`     `+ - * / %`: the exact result, in the policy's digits, in the declared range,
+                    never undefined behaviour.
+* `neg_exact`       unary minus.
+* `shlConst_exact`  `x << constant<k>` is `x·2^k` in `digits + k` digits.
+* `shrConst_exact`  `x >> constant<k>` is `⌊x / 2^k⌋` (held exactly by the storage) in
+                    `digits − k` digits; it is inside the declared range if `x ≥ 0` or the quotient
+                    is not `−2^(D−k)`.
+* `shrConst_refuted` the remaining case is a genuine violation of the property (open finding
+                    `C05.shr_negative_below_declared_range`): `elastic_integer<40>{−(2^40−1)} >> 5`
+                    is `−2^35`, one below the lowest value of the 35-digit result type.
+* `cmp_exact`       all six comparisons compare the mathematical values, for every signedness mix.
+
+Nothing is left unproved; the only part of the property that fails is the one refuted by
+`shrConst_refuted`.
+-/
+namespace Cnl.C05
+open Cnl Cnl.Elastic Cnl.Spec
+
+/-! ## `+ - * / %` -/
+
+/-- For every operator, all digit counts, signedness mixes and narrowest widths, and all in-range
+operands (non-zero divisor for `/ %`), whenever the result type exists the elastic operator returns
+(never undefined behaviour) a number `z` whose value is the exact mathematical result, whose digits
+and signedness `sg` are the policy's, which lies in its declared range
+`[-(2^D-1), 2^D-1]` (`[0, 2^D-1]` if its narrowest type is unsigned), and which is non-negative
+whenever the policy says unsigned. -/
+theorem binOp_exact (op : AOp) (x y : ENum) (hx : x.InRange) (hy : y.InRange)
+    (h0 : (op = .div ∨ op = .mod) → y.value ≠ 0)
+    (hwf : ∀ m, binOp (AOp.toBin op) x y ≠ .ill m) :
+    ∃ z sg, binOp (AOp.toBin op) x y = .ok z ∧
+      z.value = exact op x.value y.value ∧
+      policy (AOp.toBin op) x.digits x.narrowest.signed y.digits y.narrowest.signed = some (z.digits, sg) ∧
+      z.InRange ∧ (sg = false → 0 ≤ z.value) := by
+  obtain ⟨d, sg, n, hp, h1, he, hs⟩ := binOp_wf op x y hx hy h0 hwf
+  exact ⟨_, sg, h1, rfl, hp, he.mono hs, fun h => (fits_iff.mp he).2 h⟩
+
+/-- in particular no in-range operands execute undefined behaviour (signed overflow, division
+overflow) inside the operator -/
+theorem binOp_no_ub (op : AOp) (x y : ENum) (hx : x.InRange) (hy : y.InRange)
+    (h0 : (op = .div ∨ op = .mod) → y.value ≠ 0)
+    (hwf : ∀ m, binOp (AOp.toBin op) x y ≠ .ill m) (k : UB) : binOp (AOp.toBin op) x y ≠ .ub k := by
+  obtain ⟨z, _, h1, _⟩ := binOp_exact op x y hx hy h0 hwf
+  rw [h1]; intro h; cases h
+
+/-- the same with the three storage selections of `binOp` as explicit hypotheses; the returned
+wrapper has the width of the left narrowest type and the signedness of the promoted operand
+representation -/
+theorem binOp_exact_of_types (op : AOp) (x y : ENum) (hx : x.InRange) (hy : y.InRange)
+    (h0 : (op = .div ∨ op = .mod) → y.value ≠ 0)
+    {d : Nat} {sg : Bool} {R O F : IntTy}
+    (hp : policy (AOp.toBin op) x.digits x.narrowest.signed y.digits y.narrowest.signed = some (d, sg))
+    (hR : repTy d ⟨max x.narrowest.bits y.narrowest.bits, sg⟩ = some R)
+    (hO : setDigits R.signed (operandDigits R x.digits y.digits) = some O)
+    (hF : repTy d ⟨x.narrowest.bits, (promote O).signed⟩ = some F) :
+    binOp (AOp.toBin op) x y = .ok ⟨d, ⟨x.narrowest.bits, (promote O).signed⟩, exact op x.value y.value⟩ ∧
+      (⟨d, ⟨x.narrowest.bits, (promote O).signed⟩, exact op x.value y.value⟩ : ENum).InRange := by
+  have ⟨h1, he, hs⟩ := binOp_core op x y hx hy h0 hp hR hO hF
+  exact ⟨h1, he.mono hs⟩
+
+/-- the policy is total on the five arithmetic operators, so `binOp_exact` is never vacuous for
+lack of a policy -/
+theorem policy_total (op : AOp) (dL dR : Nat) (sL sR : Bool) :
+    ∃ d sg, policy (AOp.toBin op) dL sL dR sR = some (d, sg) := policy_some op dL dR sL sR
+
+-- the formerly failing instances (finding `C05.divmod_operands_narrowed`, repaired)
+example : binOp .mod ⟨40, i32, 1099511627775⟩ ⟨10, i32, 1023⟩ = .ok ⟨10, i32, 0⟩ := by decide
+example : binOp .mod ⟨40, i32, 1099511627775⟩ ⟨10, i32, 1000⟩ = .ok ⟨10, i32, 775⟩ := by decide
+example : binOp .div ⟨10, i32, 1023⟩ ⟨40, i32, 1099511627775⟩ = .ok ⟨10, i32, 0⟩ := by decide
+-- hypotheses of `binOp_exact` are satisfiable on non-trivial instances, signedness mixes included
+example : (⟨40, i32, 1099511627775⟩ : ENum).InRange ∧ (⟨10, i32, 1023⟩ : ENum).InRange ∧
+    (∀ m, binOp (AOp.toBin .mod) ⟨40, i32, 1099511627775⟩ ⟨10, i32, 1023⟩ ≠ .ill m) := by
+  refine ⟨by decide, by decide, fun m h => ?_⟩
+  have e : binOp (AOp.toBin .mod) ⟨40, i32, 1099511627775⟩ ⟨10, i32, 1023⟩ = .ok ⟨10, i32, 0⟩ := by decide
+  rw [e] at h; cases h
+example : binOp .sub ⟨8, u8, 0⟩ ⟨8, u8, 255⟩ = .ok ⟨8, i8, -255⟩ := by decide
+example : binOp .mul ⟨31, i32, -2147483647⟩ ⟨32, u32, 4294967295⟩ = .ok ⟨63, i32, -9223372030412324865⟩ := by decide
+example : binOp .add ⟨63, i64, 9223372036854775807⟩ ⟨63, i64, 9223372036854775807⟩
+    = .ok ⟨64, i64, 18446744073709551614⟩ := by decide
+example : binOp .mul ⟨1, u8, 1⟩ ⟨7, i8, -127⟩ = .ok ⟨7, i8, -127⟩ := by decide
+-- beyond the widest storage the instantiation is ill-formed (outside the quantifier)
+example : binOp .mul ⟨64, i64, 5⟩ ⟨64, i64, 5⟩ = .ill "result digits exceed the widest integer" := by decide
+
+/-! ## unary minus -/
+
+/-- `-x` is the exact negation, in the same number of digits, signed, in range, never undefined -/
+theorem neg_exact (x : ENum) (hx : x.InRange) (hwf : ∀ m, neg x ≠ .ill m) :
+    ∃ z, neg x = .ok z ∧ z.value = -x.value ∧ z.digits = x.digits ∧ z.narrowest.signed = true ∧
+      z.InRange := by
+  have ⟨h1, hf⟩ := neg_wf x hx hwf
+  exact ⟨_, h1, rfl, rfl, rfl, hf⟩
+
+example : neg ⟨32, u32, 4294967295⟩ = .ok ⟨32, i32, -4294967295⟩ := by decide
+example : neg ⟨31, i32, -2147483647⟩ = .ok ⟨31, i32, 2147483647⟩ := by decide
+
+/-! ## shifts by a compile-time constant -/
+
+/-- `x << constant<k>` is `x · 2^k` in `digits + k` digits, in range, never undefined -/
+theorem shlConst_exact (x : ENum) (k : Nat) (hx : x.InRange) (hd : 1 ≤ x.digits)
+    (hwf : ∀ m, shlConst x k ≠ .ill m) :
+    ∃ z, shlConst x k = .ok z ∧ z.value = x.value * 2^k ∧ z.digits = x.digits + k ∧ z.InRange := by
+  obtain ⟨n, h1, hs⟩ := shlConst_wf x k hx hd hwf
+  exact ⟨_, h1, rfl, rfl, (shl_bound (k := k) hx).mono hs⟩
+
+example : shlConst ⟨20, i32, -1048575⟩ 30 = .ok ⟨50, i32, -1048575 * 2^30⟩ := by decide
+example : shlConst ⟨8, u8, 255⟩ 8 = .ok ⟨16, i8, 65280⟩ := by decide
+
+/-- `x >> constant<k>` (`k < digits`) is `⌊x / 2^k⌋` in `digits − k` digits for every in-range `x`,
+never undefined; the value lies in `[-2^(D−k), 2^(D−k) − 1]`, and in the declared range of the result
+type provided `x ≥ 0` or the quotient is not the extra value `-2^(D−k)` -/
+theorem shrConst_exact (x : ENum) (k : Nat) (hx : x.InRange) (hk : k < x.digits)
+    (hwf : ∀ m, shrConst x k ≠ .ill m) :
+    ∃ z, shrConst x k = .ok z ∧ z.value = x.value / 2^k ∧ z.digits = x.digits - k ∧
+      (-(2^(x.digits - k) : Int) ≤ z.value ∧ z.value ≤ 2^(x.digits - k) - 1) ∧
+      ((0 ≤ x.value ∨ -(2^(x.digits - k) - 1 : Int) ≤ x.value / 2^k) → z.InRange) := by
+  obtain ⟨n, h1, hs⟩ := shrConst_wf x k hx hk hwf
+  have ⟨b1, b2, b3⟩ := shr_bound hx (Nat.le_of_lt hk)
+  refine ⟨_, h1, rfl, rfl, ⟨b1, b2⟩, fun h => ?_⟩
+  have hq := two_pow_pos k
+  have hlo : -(2^(x.digits - k) - 1 : Int) ≤ x.value / 2^k := by
+    cases h with
+    | inl h => have := Int.ediv_nonneg h (Int.le_of_lt hq); have := two_pow_pos (x.digits - k); omega
+    | inr h => exact h
+  exact fits_iff.mpr ⟨⟨hlo, b2⟩, fun h => b3 (hs h)⟩
+
+/-- the unconditional range claim for `>>` is false: the open finding
+`C05.shr_negative_below_declared_range` -/
+theorem shrConst_refuted :
+    ¬ (∀ (x : ENum) (k : Nat), x.InRange → k < x.digits → ∀ z, shrConst x k = .ok z → z.InRange) := by
+  intro h
+  exact absurd (h ⟨40, i32, -1099511627775⟩ 5 (by decide) (by decide) ⟨35, i32, -34359738368⟩ (by decide))
+    (by decide)
+
+example : shrConst ⟨40, i32, 1099511627775⟩ 5 = .ok ⟨35, i32, 34359738367⟩ := by decide
+example : shrConst ⟨40, i32, -1099511627744⟩ 5 = .ok ⟨35, i32, -34359738367⟩ := by decide
+
+/-! ## comparison -/
+
+/-- every comparison of two in-range elastic numbers — any digits, any signedness mix, any narrowest
+widths for which the common type exists — is the comparison of their mathematical values -/
+theorem cmp_exact (op : CmpOp) (x y : ENum) (hx : x.InRange) (hy : y.InRange)
+    (hwf : ∀ m, cmp op x y ≠ .ill m) : cmp op x y = .ok (cmpExact op x.value y.value) :=
+  cmp_wf op x y hx hy hwf
+
+/-- `cmp_exact` spelled out for the six operators -/
+theorem cmp_exact_all (x y : ENum) (hx : x.InRange) (hy : y.InRange)
+    (hwf : ∀ op m, cmp op x y ≠ .ill m) :
+    cmp .lt x y = .ok (decide (x.value < y.value)) ∧ cmp .le x y = .ok (decide (x.value ≤ y.value)) ∧
+    cmp .gt x y = .ok (decide (x.value > y.value)) ∧ cmp .ge x y = .ok (decide (x.value ≥ y.value)) ∧
+    cmp .eq x y = .ok (decide (x.value = y.value)) ∧ cmp .ne x y = .ok (decide (x.value ≠ y.value)) :=
+  ⟨cmp_exact .lt x y hx hy (hwf _), cmp_exact .le x y hx hy (hwf _), cmp_exact .gt x y hx hy (hwf _),
+   cmp_exact .ge x y hx hy (hwf _), cmp_exact .eq x y hx hy (hwf _), cmp_exact .ne x y hx hy (hwf _)⟩
+
+-- an unsigned and a negative elastic_integer compare by value (no conversion of −1 to 2^32−1)
+example : cmp .lt ⟨31, i32, -1⟩ ⟨32, u32, 4294967295⟩ = .ok true := by decide
+example : cmp .gt ⟨8, u8, 255⟩ ⟨7, i8, -127⟩ = .ok true := by decide
+example : cmp .eq ⟨64, u64, 18446744073709551615⟩ ⟨7, i8, -1⟩ = .ok false := by decide
+
+end Cnl.C05
